@@ -73,6 +73,14 @@ EU_C10_DocsF == SetToSeq({ LET e == <<<<EU_KA, t[1]>>, <<EU_KB, t[2]>>, <<EU_KC,
                            IN SD("dict", NoVal, <<e[pi[1]], e[pi[2]], e[pi[3]]>>)
                            : t \in EU_FTriples, pi \in EU_Perm3 })
 
+\* two !rec nodes, each reading a file with calls at evaluation time (files: harness/registry.py C10 "rec_files"), consumers before /
+\* after them, every key order: every call of every file runs exactly once, consumers get the very objects
+EU_Rec(name) == [SD("rec", NoVal, <<<<IKey(0), SD("scalar", Atom("s", name), <<>>)>>>>) EXCEPT !.form = "tag"]
+EU_C10_DocsR == SetToSeq({ LET e == <<<<EU_KA, EU_Rec("rc1.yaml")>>, <<EU_KB, y>>, <<EU_KC, z>>>>
+                           IN SD("dict", NoVal, <<e[pi[1]], e[pi[2]], e[pi[3]]>>)
+                           : y \in {EU_Rec("rc2.yaml"), EU_Rec("rc1.yaml")},
+                             z \in {EU_L("1"), EU_XRef(<<EU_KA>>), EU_Call(<<<<EU_KA, EU_XRef(<<EU_KB>>)>>>>), EU_Call(<<>>)}, pi \in EU_Perm3 })
+
 \* a call whose target builds an independent config of its own while this one is being evaluated (vmod.recbuild), between a
 \* producer and its later consumers, in every key order
 EU_NX == {EU_XRef(<<EU_KA>>), EU_Call(<<<<EU_KA, EU_XRef(<<EU_KA>>)>>>>),
